@@ -48,7 +48,9 @@ def blocks(tier, seed):
                 out.append({"kind": "shift-detect", "shape": shape, "prefix": [b0, b1]})
     # elongated domains whose equal-volume spheres overlap: the overlap removal has to discard several of them
     for l0 in BAR_LENGTHS:
-        out.append({"kind": "bars", "first": l0, "tier": tier})
+        for l1 in BAR_LENGTHS:
+            if l0 == 0 or l0 != l1:
+                out.append({"kind": "bars", "first": l0, "second": l1, "tier": tier})
     for part in ("base", "rules", "gridseq"):
         out.append({"kind": "droplets", "seedv": seed % 3, "part": part})
     out.append({"kind": "nonconvex"})
@@ -114,8 +116,8 @@ def cases(block):
                 w = {"kind": "wave", "shape": [12, 12], "m": m, "amp": 3.0, "offset": 0.0, "phase": 0.0, "light": True}
                 yield {"sequence": [dict(w, aspect=a), dict(w, aspect=b)]}
     elif block["kind"] == "bars":
-        for rest in itertools.product(BAR_LENGTHS, repeat=len(BAR_ROWS) - 1):
-            lens = [block["first"]] + list(rest)
+        for rest in itertools.product(BAR_LENGTHS, repeat=len(BAR_ROWS) - 2):
+            lens = [block["first"], block["second"]] + list(rest)
             used = [l for l in lens if l]
             if len(used) >= 2 and len(set(used)) == len(used):
                 yield {"kind": "bars", "shape": [20, 20], "lengths": lens, "all_shifts": block["tier"] == "thorough"}
